@@ -36,7 +36,7 @@ ASSUME = [
     "float model: amd64 without fused multiply-add (GOAMD64=v1: num*float64(cnt) and the addition are rounded separately);"
     " Total <= 2^53 and no int64 wrap; all NaNs identified; the order in which TwoSourceAggregator.Aggregate ranges over its Go map"
     " is an input (witness) - the grouped Sum over general decimals is NOT a function of the documents in the real code;"
-    " the error bound theorem covers one fraction's chain only (C06_float_sum_error_bound_partial)",
+    " the error bound theorems cover one fraction's chain (C06_float_sum_error_bound_partial) and merge trees with all counts 1 (C06_float_sum_error_bound_tree), not the rounded product num*float64(cnt) of the grouped aggregator",
     "extreme-value worlds run without wire/JSON conversion: proto3 drops the sign of a -0.0 Min/Max, encoding/json refuses a"
     " Sum that overflowed to Inf/NaN (findings reported, not counted)",
     "quantiles are dyadic (a/2^b) so that float64(len-1)*q+0.5 is computed without rounding",
